@@ -22,7 +22,7 @@ Proof.
   pose proof (Z.mod_pos_bound (z + 9223372036854775808) 18446744073709551616 ltac:(lia)). lia.
 Qed.
 
-Inductive binop := OAdd | OSub | OMul | OShl | OShr | OLt | OLe | OGt | OGe | OEq | ONe | OAnd | OOr.
+Inductive binop := OAdd | OSub | OMul | OShl | OShr | OMod | OLt | OLe | OGt | OGe | OEq | ONe | OAnd | OOr.
 
 (* all sub-expressions are int64; booleans are 0/1 *)
 Inductive expr :=
@@ -43,6 +43,12 @@ Definition b2z (b : bool) : Z := if b then 1 else 0.
 Definition shl64 (a n : Z) : Z := if n <? 0 then 0 else if n >=? 64 then 0 else wrap64 (a * 2 ^ n).
 Definition shr64 (a n : Z) : Z := if n <? 0 then 0 else if n >=? 64 then (if a <? 0 then -1 else 0) else a / 2 ^ n.
 
+Lemma shl64_small a k : 0 <= k < 64 -> shl64 a k = wrap64 (a * 2 ^ k).
+Proof. intro H. unfold shl64. destruct (Z.ltb_spec k 0); [lia|]. rewrite Z.geb_leb. destruct (Z.leb_spec 64 k); [lia|reflexivity]. Qed.
+
+Lemma shr64_small a k : 0 <= k < 64 -> shr64 a k = a / 2 ^ k.
+Proof. intro H. unfold shr64. destruct (Z.ltb_spec k 0); [lia|]. rewrite Z.geb_leb. destruct (Z.leb_spec 64 k); [lia|reflexivity]. Qed.
+
 Definition eval_bin (o : binop) (a b : Z) : Z :=
   match o with
   | OAdd => wrap64 (a + b)
@@ -50,6 +56,7 @@ Definition eval_bin (o : binop) (a b : Z) : Z :=
   | OMul => wrap64 (a * b)
   | OShl => shl64 a b
   | OShr => shr64 a b
+  | OMod => a mod b          (* only emitted for x & (2^k - 1), which is x mod 2^k for every integer x *)
   | OLt => b2z (a <? b)
   | OLe => b2z (a <=? b)
   | OGt => b2z (a >? b)
